@@ -72,6 +72,33 @@ def definitional(candidate: List[Set], rankings: List[List[Set]]) -> Lin:
     return tot
 
 
+def larger_pairs(count: int, seed: int):
+    """Deterministic (candidate, [input ranking]) pairs over 6-8 elements: long sorted runs, big tied buckets, many
+    missing elements - the shapes that exercise deep merges and long tie runs of the counting routine."""
+    import random
+    rnd = random.Random(1234 + seed)
+    out = []
+    for k in range(count):
+        n = 6 + k % 3
+        elems = list(range(1, n + 1))
+
+        def weak(sub, max_buckets):
+            sub = list(sub)
+            rnd.shuffle(sub)
+            nb = rnd.randint(1, max(1, min(max_buckets, len(sub))))
+            cuts = sorted(rnd.sample(range(1, len(sub)), nb - 1)) if nb > 1 else []
+            parts, prev = [], 0
+            for c in cuts + [len(sub)]:
+                parts.append(set(sub[prev:c]))
+                prev = c
+            return [b for b in parts if b]
+        cand = weak(elems, rnd.choice((2, 3, n)))
+        present = [e for e in elems if rnd.random() < (0.55 if k % 2 else 0.9)] or elems[:1]
+        rk = weak(present, rnd.choice((1, 2, 4, n)))
+        out.append((cand, [rk]))
+    return out
+
+
 class KWorld(World):
     def __init__(self, proj: Project):
         super().__init__(proj)
@@ -173,6 +200,7 @@ def run(ctx) -> Result:
         c4 = list(ordered_partitions(e4))[::9]
         i4 = subsets_rankings(e4)[5::11]
         pairs += [(c, [r]) for c in c4 for r in i4 if r]
+    pairs += larger_pairs(96 if ctx.thorough else 40, ctx.seed if ctx.thorough else 0)
     chunks = [pairs[i::16] for i in range(16)]
     total = 0
     bads = []
